@@ -73,6 +73,12 @@ class Model(HoloPyObject):
         new_name: string, optional
             the name for the new tied parameter
         """
+        if (new_name in self._parameter_names
+                and new_name not in parameters_to_tie):
+            msg = ("Cannot name tied parameter {}. The name is already in "
+                   "use in parameters {}").format(new_name,
+                                                  self._parameter_names)
+            raise ValueError(msg)
         indices = []
         for par in parameters_to_tie:
             if par not in self._parameter_names:
